@@ -21,7 +21,8 @@ EXPLANATION = (
     "once. R15f: in integrate_spin a term leaves the loop without contribution only under "
     "term_vanishes, which is set only when an object has no admissible block or no consistent "
     "combination exists; unassigned contracted indices get both spins; the spin is attached "
-    "without renaming.")
+    "without renaming. R15g: the backtracking search _has_valid_combination (behind the reported "
+    "allowed spin blocks) evaluated on 1728 three-tensor instances against brute force.")
 ASSUMPTIONS = [
     "completeness/duplicate-freeness of the enumeration of spin assignments in general is not decided",
 ]
@@ -181,9 +182,9 @@ def r15c(ctx):
     rule = "R15c"
     fn = ctx.model.fn("expr_container:Obj.expand_antisym_eri")
     unp = [n for n in walk_fn(fn) if isinstance(n, ast.Assign) and isinstance(n.targets[0], ast.Tuple)
-           and U(n.value) == "self.idx"]
-    if len(unp) != 1 or len(unp[0].targets[0].elts) != 4:
-        raise AnalysisError("expand_antisym_eri: `p, q, r, s = self.idx` not found")
+           and U(n.value).endswith(".idx") and len(n.targets[0].elts) == 4]
+    if len(unp) != 1:
+        raise AnalysisError("expand_antisym_eri: `p, q, r, s = <eri>.idx` not found")
     n0, n1, n2, n3 = (U(e) for e in unp[0].targets[0].elts)
     sites = [c for c in calls_in(fn) if call_name(c) == "SymmetricTensor"]
     ctx.floor(rule, "Coulomb tensors in expand_antisym_eri", len(sites), 2)
@@ -351,6 +352,10 @@ def r15f(ctx):
         ok = ("obj_spin_idx_maps", False) in conds or ("combinations", False) in conds
         ctx.check(rule, a, ok, "vanishing only if no admissible block / no consistent combination",
                   "term_vanishes set under another condition", key="vanish condition")
+    ti = [a for a in walk_fn(lp) if isinstance(a, ast.Assign) and U(a.targets[0]) == "term_indices"]
+    ctx.check(rule, lp, len(ti) == 1 and U(ti[0].value) == "set(term.idx)", "indices of the term without repetition",
+              f"term_indices is `{U(ti[0].value) if ti else None}`: Term.idx lists an index once per occurrence, so unassigned "
+              "contracted indices are enumerated several times and spin variants are duplicated", key="term indices set")
     # block filtering against the target spins
     val = [a for a in walk_fn(lp) if isinstance(a, ast.Assign) and U(a.targets[0]) == "valid" and U(a.value) == "False"]
     ok = len(val) == 1 and {(t2, pol) for t2, pol in conditions(val[0])} >= {
@@ -393,7 +398,72 @@ def r15f(ctx):
     ctx.check(rule, fn, ok, "target index -> requested spin by position", "target spin map changed", key="spin map")
 
 
+def r15g(ctx):
+    """_has_valid_combination evaluated on 3 tensors over the index pairs (x,y),(y,z),(x,z), each
+    with two admissible spin blocks: answer == brute force, variant complete and consistent on
+    success."""
+    rule = "R15g"
+    import itertools
+    from ..abseval import Interp, Rec
+    fn = ctx.model.fn(SO + "_has_valid_combination")
+    idx = {n: Rec("Index", name=n) for n in "xyz"}
+    supports = [("x", "y"), ("y", "z"), ("x", "z")]
+    blocks = ["aa", "ab", "ba", "bb"]
+    pairs = [(b1, b2) for b1 in blocks for b2 in blocks if b1 != b2]
+    n = 0
+    bad = 0
+    for choice in itertools.product(pairs, repeat=3):
+        maps = []
+        for sup, bl in zip(supports, choice):
+            lst = []
+            for b in bl:
+                m = {"a": set(), "b": set()}
+                for sp, name in zip(b, sup):
+                    m[sp].add(idx[name])
+                lst.append(m)
+            maps.append(lst)
+        variant = {"a": set(), "b": set()}
+
+        def rec(i, node, a, kw):
+            k, v = Interp({"_has_valid_combination": rec}, what="_has_valid_combination").call(
+                fn, {"tensor_idx_maps": a[0], "current_pos": a[1], "variant": a[2]})
+            if k != "return":
+                raise AnalysisError(f"R15g: recursion raised {v}")
+            return v
+        kind, val = Interp({"_has_valid_combination": rec}, what="_has_valid_combination").call(
+            fn, {"tensor_idx_maps": maps, "current_pos": 0, "variant": variant})
+        n += 1
+        # oracle
+        want = False
+        for sel in itertools.product(range(2), repeat=3):
+            spin = {}
+            ok = True
+            for t, k in enumerate(sel):
+                for sp in "ab":
+                    for i in maps[t][k][sp]:
+                        if spin.setdefault(i.name, sp) != sp:
+                            ok = False
+            if ok:
+                want = True
+                break
+        good = kind == "return" and bool(val) == want
+        if good and want:
+            good = not (variant["a"] & variant["b"]) and len(variant["a"] | variant["b"]) == 3
+        if not good:
+            bad += 1
+            if bad <= 3:
+                ctx.bad(rule, fn, f"blocks {choice}: search answers {val} (assignment {sorted(i.name for i in variant['a'])}|"
+                        f"{sorted(i.name for i in variant['b'])}), a consistent spin assignment "
+                        f"{'exists' if want else 'does not exist'}: choices that dead-end are not reverted correctly",
+                        key=f"search {choice}")
+        else:
+            ctx.ok(rule, fn, f"blocks {choice}: {want}", key=f"search {choice}")
+    ctx.floor(rule, "search instances", n, 1000)
+
+
 def run(ctx):
+    if ctx.want("R15g"):
+        r15g(ctx)
     if ctx.want("R15a"):
         r15a(ctx, modules=None if ctx.tier == "thorough" else {"spatial_orbitals"})
     if ctx.want("R15b"):
